@@ -36,8 +36,11 @@ Definition pub_mismatch (c : pub_case) : bool :=
         && counts_agree plabel_eqb (pk_tab c) (ps_obs s)
         && close_eqb (pclose (pk_st c) (snd (fst (pk_close c)))) (fst (fst (pk_close c)), snd (pk_close c))).
 
+(** [pk_heap] holds objects that were never handed to a metrics-decorated publisher: none of them
+    may carry the publish mark (whatever else they have been through) *)
 Definition pub_violates (c : pub_case) : bool :=
-  negb (pub_monitor (pk_st c) (pk_obs c) (pk_tab c)
+  negb (forallb (fun m => negb (pm_mark m)) (pk_heap c)
+        && pub_monitor (pk_st c) (pk_obs c) (pk_tab c)
         && close_eqb (1%nat, snd (fst (pk_close c))) (fst (fst (pk_close c)), snd (pk_close c))).
 
 (** * subscriber stacks *)
